@@ -371,6 +371,24 @@ def judge_in_group(case) -> Verdict:
             return v
         xo = AddressAg(member_text(x, platform, case.get("sx", 0), case.get("xseq", 0)), platform=platform)
         want = any(R.pair_contains(m, x) for m in members)
+    if case.get("wide") and platform == "nxos" and case.get("detach") is None:
+        # a member with 17 non-contiguous bits in a group read with a raised limit; the group is copied / re-platformed
+        # (also to an alias of its own platform); the listed member is still listed
+        wtext = "10.0.0.0 0.3.255.254"
+        grp = AddrGroup(name="GRP", items=body + [wtext], platform=platform, max_ncwb=30)
+        how = case["wide"]
+        if how == "copy":
+            grp = grp.copy()
+        elif how in ("nxos", "cnx", "cisco_nxos"):
+            grp.platform = how
+        else:
+            raise Invalid()
+        if [o.line for o in grp.items][-1:] != [wtext]:
+            v.fail("group:wide-member-lost-by-copy-or-platform", {"how": how, "members": [o.line for o in grp.items]})
+            return v
+        xo = AddressAg(wtext, platform=platform, max_ncwb=30)
+        want = True
+        v.label("17-bit-member-under-raised-limit")
     got = xo in grp
     if bool(got) != want:
         v.fail(f"group:{'missed' if want else 'false'}-membership", {"group": grp.line, "member": xo.line, "library": got,
@@ -396,6 +414,8 @@ def in_group_st(draw, tier):
         case["xseq"] = draw(st.sampled_from([0, 10, 20, 30, 5, 99]))
     if draw(st.sampled_from(range(5))) == 3:
         case["detach"] = draw(st.integers(0, 4))
+    elif platform == "nxos" and draw(st.sampled_from(range(6))) == 4:
+        case["wide"] = draw(st.sampled_from(["copy", "nxos", "cnx", "cisco_nxos"]))
     return case
 
 
